@@ -13,6 +13,7 @@
 
 static int profile;
 static long cmps;
+static long halfobj;
 #define KMAX 100000
 
 static size_t mkkey(unsigned char *b, int id) {
@@ -132,6 +133,23 @@ int main(int argc, char **argv) {
             if (!got) break;
             vh_seg++; vh_step = 0;
             mark = vh_ledger_mark();
+            if (inj_at || inj_from) {
+                /* constructor under allocation failure: NULL and nothing left allocated, or a working object */
+                for (long ck = 1; ck <= 16; ck++) {
+                    long m0 = vh_ledger_mark();
+                    vh_where = "ctor";
+                    vh_call_begin();
+                    if (inj_at) vh_fail_at = ck; else vh_fail_from = ck;
+                    T = qtreetbl(ts ? QTREETBL_THREADSAFE : 0);
+                    long nf = vh_failed;
+                    vh_call_end();
+                    int cok = T != NULL;
+                    if (T) { T->free(T); T = NULL; }
+                    vh_emit("{\"op\":\"ctor\",\"a\":0,\"b\":0,\"inj\":%ld,\"nfail\":%ld,\"ok\":%s,\"live\":%ld}", ck, nf, vh_bool(cok), vh_live_since(m0));
+                    if (nf == 0) break;
+                }
+            }
+
             T = qtreetbl(ts ? QTREETBL_THREADSAFE : 0);
             if (!T) return 2;
             if (profile == 1) T->set_compare(T, cmp_cnt);
@@ -147,6 +165,7 @@ int main(int argc, char **argv) {
         vh_where = op;
         int inject = (inj_at || inj_from) && is_alloc_op(op);
         for (long k = 1;; k++) {
+            if (inject && k > 300) inject = 0;      /* give up injecting: finish the operation normally */
             unsigned char kb0[16], vb0[64];
             size_t kn = mkkey(kb0, a), vn = mkval(vb0, bb);
             /* caller data lives in exactly-sized heap buffers that are scribbled and released after the call */
@@ -190,8 +209,11 @@ int main(int argc, char **argv) {
                 if (ts) T->unlock(T);
                 if (ok) {
                     rk = keyid(cur.name, cur.namesize); rv = valid_(cur.data, cur.datasize);
-                    if (newmem) { keep(cur.name, rk, cur.namesize, 1); if (cur.data) keep(cur.data, rv, cur.datasize, 0); }
-                } else memset(&cur, 0, sizeof cur);
+                    if (newmem) {
+                        if (cur.name) keep(cur.name, rk, cur.namesize, 1);
+                        if (cur.data) keep(cur.data, rv, cur.datasize, 0);
+                    }
+                } else if (errno != ENOMEM) memset(&cur, 0, sizeof cur);     /* after a failed copy the same call is simply repeated */
             } else if (!strcmp(op, "abandon")) { memset(&cur, 0, sizeof cur); }
             else if (!strcmp(op, "nearest")) {
                 qtreetbl_obj_t r = T->find_nearest(T, kb, kn, newmem);
@@ -200,6 +222,9 @@ int main(int argc, char **argv) {
                     rk = keyid(r.name, r.namesize); rv = valid_(r.data, r.datasize);
                     if (newmem) { keep(r.name, rk, r.namesize, 1); if (r.data) keep(r.data, rv, r.datasize, 0); }
                     if (bb == 1) cur = r;
+                } else if (newmem && r.data && vh_failed > 0) {
+                    halfobj++;              /* failure reported (no name) yet a copy of the value was handed out */
+                    free(r.data);
                 }
             } else if (!strcmp(op, "walk")) {
                 qtreetbl_obj_t o; memset(&o, 0, sizeof o);
@@ -212,6 +237,7 @@ int main(int argc, char **argv) {
                     if (nout > 200000) break;
                 }
                 if (ts) T->unlock(T);
+                ok = (errno != ENOMEM);      /* the end of a traversal is reported without an error code */
                 n = nout;
             }
             int e = ok ? 0 : vh_ecls(errno);
@@ -226,6 +252,7 @@ int main(int argc, char **argv) {
             vh_bprintf(&b, "\"size\":%zu,\"chk\":%d,\"cmps\":%ld,\"h\":%d,\"cnt\":%d,\"ttid\":%d,\"ctid\":%d,\"cnx\":%d,\"hs\":%s,\"shape\":",
                        T->size(T), qtreetbl_check(T), (profile == 0) ? -1L : mycmps, height(T->root), nnodes, T->tid, cur.tid, ptr_to_key(cur.next), vh_bool(hs));
             if (hs) shape(&b, T->root); else vh_bprintf(&b, "[]");
+            vh_bprintf(&b, ",\"half\":%ld", halfobj); halfobj = 0;
             int full = hs || (evno % 200 == 0);
             vh_bprintf(&b, ",\"full\":%s,\"ino\":[", vh_bool(full));
             if (full) { int first = 1; inorder(&b, T->root, &first); }
@@ -233,7 +260,7 @@ int main(int argc, char **argv) {
             for (int j = 0; j < nout && j < 70000; j++) vh_bprintf(&b, "%s[%d,%d]", j ? "," : "", outk[j], outv[j]);
             vh_bprintf(&b, "],\"lkd\":%ld,\"ovl\":%ld,\"bf\":%ld}", (vh_locks - vh_unlocks) - lkb, vh_overlap_copies - ovb, vh_badfree - bfb);
             vh_bflush(&b);
-            if (!inject || nfail == 0 || ok || k > 64) break;
+            if (!inject || nfail == 0 || ok ) break;
         }
     }
     vh_close();
